@@ -38,16 +38,6 @@ Proof.
   destruct (assoc (m_tag r) h); intros H; inv H. reflexivity.
 Qed.
 
-(* side conditions under which hashing keeps ids distinct:
-   all hash strings have the same length, and no resource that keeps its name already carries the
-   name a hashed resource of the same kind and namespace is about to get *)
-Definition hash_lengths_equal (h : list (string * string)) : Prop :=
-  forall t1 t2 v1 v2, assoc t1 h = Some v1 -> assoc t2 h = Some v2 -> String.length v1 = String.length v2.
-
-Definition no_plain_clash (h : list (string * string)) (m : rmap) : Prop :=
-  forall a b, In a m -> In b m -> needs_hash a = true -> needs_hash b = false ->
-    id_key (mkId (i_gvk (cur a)) (hashed_name h a) (i_ns (cur a))) <> key b.
-
 Lemma mapM_all_ok {A B} (f : A -> res B) l l' : mapM f l = Ok l' -> forall a, In a l -> exists b, f a = Ok b.
 Proof.
   revert l'. induction l as [|x t IH]; cbn; intros l' H a Ha; [destruct Ha|].
@@ -56,38 +46,91 @@ Proof.
   destruct Ha as [<-|Ha]; eauto.
 Qed.
 
-Lemma hash_all_inv_partial h m m' :
-  Inv m -> hash_lengths_equal h -> no_plain_clash h m -> hash_all h m = Ok m' -> Inv m'.
+Lemma ann_get_set_other k k' v a : k <> k' -> ann_get k (ann_set k' v a) = ann_get k a.
 Proof.
-  intros I L NC H.
+  intros N. induction a as [|[k1 v1] t IH]; cbn.
+  - destruct (String.eqb k' k) eqn:E; [apply String.eqb_eq in E; congruence|reflexivity].
+  - destruct (String.eqb k1 k') eqn:E; cbn.
+    + apply String.eqb_eq in E. subst k1.
+      destruct (String.eqb k' k) eqn:E2; [apply String.eqb_eq in E2; congruence|reflexivity].
+    + destruct (String.eqb k1 k); [reflexivity|exact IH].
+Qed.
+
+Lemma ann_get_append_csv_other k k' v a : k <> k' -> ann_get k (append_csv k' v a) = ann_get k a.
+Proof. intros N. unfold append_csv. destruct (String.eqb v ""); [reflexivity|apply ann_get_set_other; exact N]. Qed.
+
+Lemma needs_hash_ann_store_prev r :
+  ann_get K_utils_BuildAnnotationsGenAddHashSuffix (m_ann (store_prev r)) =
+  ann_get K_utils_BuildAnnotationsGenAddHashSuffix (m_ann r).
+Proof.
+  unfold store_prev. cbn [m_ann set_ann].
+  rewrite !ann_get_append_csv_other by (intros X; vm_compute in X; discriminate). reflexivity.
+Qed.
+
+Lemma hash_one_needs h r r' : hash_one h r = Ok r' -> needs_hash r' = needs_hash r.
+Proof.
+  unfold hash_one. destruct (needs_hash r) eqn:EN; [|intros H; inv H; exact EN].
+  destruct (assoc (m_tag r) h) as [hv|]; intros H; inv H.
+  unfold needs_hash in *. cbn [m_ann set_name]. rewrite needs_hash_ann_store_prev. exact EN.
+Qed.
+
+Lemma filter_two {A} (p : A -> bool) (g : A -> A) l a b :
+  In a l -> In b l -> a <> b -> p (g a) = true -> p (g b) = true -> 2 <= List.length (filter p (map g l)).
+Proof.
+  induction l as [|x t IH]; cbn; intros Ha Hb N Pa Pb; [destruct Ha|].
+  assert (one : forall c, In c t -> p (g c) = true -> 1 <= List.length (filter p (map g t))).
+  { clear. induction t as [|y u IHu]; cbn; intros c Hc Pc; [destruct Hc|].
+    destruct Hc as [<-|Hc]; [rewrite Pc; cbn; lia|]. destruct (p (g y)); cbn; [lia|eauto]. }
+  destruct Ha as [<-|Ha], Hb as [<-|Hb].
+  - congruence.
+  - rewrite Pa. cbn. specialize (one b Hb Pb). lia.
+  - rewrite Pb. cbn. specialize (one a Ha Pa). lia.
+  - destruct (p (g x)); cbn; [specialize (IH Ha Hb N Pa Pb); lia|auto].
+Qed.
+
+(* with the re-check of the fix the hash step preserves uniqueness, no side condition *)
+Lemma hash_all_inv h m m' : Inv m -> hash_all h m = Ok m' -> Inv m'.
+Proof.
+  intros I H. unfold hash_all in H.
+  destruct (mapM (hash_one h) m) as [m1| | |] eqn:EM; cbn [bind] in H; try discriminate.
+  destruct (hash_conflict_free m1) eqn:EC; inv H.
   pose (g := fun r => match hash_one h r with Ok x => x | _ => r end).
   assert (E : m' = map g m).
-  { eapply mapM_ok_map; [|exact H]. intros a b Hab. unfold g. rewrite Hab. reflexivity. }
-  pose proof (mapM_all_ok _ _ _ H) as OK.
+  { eapply mapM_ok_map; [|exact EM]. intros a b Hab. unfold g. rewrite Hab. reflexivity. }
+  pose proof (mapM_all_ok _ _ _ EM) as OK.
   subst m'. unfold Inv. rewrite map_map.
   apply (NoDup_map_rel key (fun r => id_key (cur (g r))) m I).
   intros a b Ha Hb Eq.
+  destruct (id_equals (cur a) (cur b)) eqn:Eab; [apply id_equals_key; exact Eab|]. exfalso.
+  assert (Nab : a <> b) by (intros ->; rewrite id_equals_refl in Eab; discriminate).
+  assert (Egab : id_equals (cur (g a)) (cur (g b)) = true) by (apply id_equals_key; exact Eq).
+  unfold hash_conflict_free in EC. rewrite forallb_forall in EC.
   destruct (OK a Ha) as [a' Ea]. destruct (OK b Hb) as [b' Eb].
-  unfold g in Eq. rewrite Ea, Eb in Eq.
-  rewrite (hash_one_cur _ _ _ Ea), (hash_one_cur _ _ _ Eb) in Eq.
-  destruct (needs_hash a) eqn:Na, (needs_hash b) eqn:Nb.
-  - (* both hashed: equal lengths of the hashes make the split unique *)
-    unfold hash_one in Ea, Eb. rewrite Na in Ea. rewrite Nb in Eb.
-    unfold hashed_name in Eq.
-    destruct (assoc (m_tag a) h) as [ha|] eqn:Aa; [|discriminate].
-    destruct (assoc (m_tag b) h) as [hb|] eqn:Ab; [|discriminate].
-    unfold id_key, eff_ns in Eq. cbn in Eq. unfold key, id_key, eff_ns.
-    inv Eq.
-    match goal with HH : (_ ++ _)%string = (_ ++ _)%string |- _ =>
-      apply append_eq_len in HH as [Hn _]; [|cbn; f_equal; eapply L; eauto] end.
-    rewrite Hn. congruence.
-  - exfalso. eapply (NC a b); eauto.
-  - exfalso. eapply (NC b a); eauto.
-  - exact Eq.
+  assert (Ga : g a = a') by (unfold g; rewrite Ea; reflexivity).
+  assert (Gb : g b = b') by (unfold g; rewrite Eb; reflexivity).
+  destruct (needs_hash a) eqn:Na.
+  - (* a was renamed: its new id must be unique in the new map, but g b carries it too *)
+    pose proof (EC (g a) (in_map g m a Ha)) as Ca.
+    assert (Nga : needs_hash (g a) = true) by (rewrite Ga, (hash_one_needs _ _ _ Ea); exact Na).
+    rewrite Nga in Ca. cbn [negb orb] in Ca. apply Nat.eqb_eq in Ca.
+    pose proof (filter_two (fun x => id_equals (cur (g a)) (cur x)) g m a b Ha Hb Nab (id_equals_refl _) Egab) as T.
+    lia.
+  - destruct (needs_hash b) eqn:Nb.
+    + pose proof (EC (g b) (in_map g m b Hb)) as Cb.
+      assert (Ngb : needs_hash (g b) = true) by (rewrite Gb, (hash_one_needs _ _ _ Eb); exact Nb).
+      rewrite Ngb in Cb. cbn [negb orb] in Cb. apply Nat.eqb_eq in Cb.
+      assert (Eba : id_equals (cur (g b)) (cur (g a)) = true).
+      { apply id_equals_key. symmetry. apply id_equals_key. exact Egab. }
+      pose proof (filter_two (fun x => id_equals (cur (g b)) (cur x)) g m b a Hb Ha (fun X => Nab (eq_sym X))
+                             (id_equals_refl _) Eba) as T.
+      lia.
+    + (* neither renamed: the ids are the old ones *)
+      unfold hash_one in Ea, Eb. rewrite Na in Ea. rewrite Nb in Eb. injection Ea as Ea. injection Eb as Eb.
+      rewrite Ga, Gb, <- Ea, <- Eb in Egab. congruence.
 Qed.
 
-(* without the side condition the law fails in the model: a plain ConfigMap that already carries the
-   hashed name of a generated one *)
+(* regression (C07 finding, fixed): a plain ConfigMap that already carries the hashed name of a generated one used to
+   leave the hash step with two equal ids; the step now fails *)
 Definition cm_gvk : gvk := mkGvk "" "v1" "ConfigMap" false.
 Definition w_gen : mres :=
   mkRes (mkId cm_gvk "x" "") [(K_utils_BuildAnnotationsGenAddHashSuffix, K_utils_Enabled)] false "gen".
@@ -96,13 +139,15 @@ Definition w_local : mres :=
   mkRes (mkId cm_gvk "x-bdg947hgcc" "") [(K_konfig_IgnoredByKustomizeAnnotation, "true")] false "local".
 Definition w_hash : list (string * string) := [("gen", "bdg947hgcc")].
 
-Lemma hash_all_refuted : exists h m m', Inv m /\ hash_all h m = Ok m' /\ ~ Inv m'.
-Proof.
-  exists w_hash, [w_plain; w_gen]. eexists. split; [|split].
-  - apply inv_b_iff. vm_compute. reflexivity.
-  - vm_compute. reflexivity.
-  - intros I. apply inv_b_iff in I. vm_compute in I. discriminate.
-Qed.
+Example hash_all_clash_regression :
+  Inv [w_plain; w_gen] /\ hash_all w_hash [w_plain; w_gen] = Err /\ hash_all w_hash [w_local; w_gen] = Err.
+Proof. split; [apply inv_b_iff; vm_compute; reflexivity|]. split; vm_compute; reflexivity. Qed.
+
+(* ... and an ordinary generated resource still gets its suffix *)
+Example hash_all_still_renames :
+  exists m', hash_all w_hash [w_gen; mkRes (mkId cm_gvk "conf" "") [] false "c"] = Ok m' /\
+             map (fun r => i_name (cur r)) m' = ["x-bdg947hgcc"; "conf"]%string.
+Proof. eexists. split; vm_compute; reflexivity. Qed.
 
 (* ---------- IgnoreLocal ---------- *)
 
@@ -285,33 +330,20 @@ Proof.
   apply strip_all_inv. eapply sort_legacy_inv; eauto.
 Qed.
 
-(* fifo order: unique ids provided the ids were unique once the hash suffixes were added *)
-Lemma finalize_fifo_unique_partial h bm m out :
-  finalize h false bm m = Ok out -> (forall m1, hash_all h m = Ok m1 -> Inv m1) -> Inv out.
+(* fifo / no order: with the re-check of the hash step, unique ids in give unique ids out *)
+Lemma finalize_fifo_unique h bm m out : Inv m -> finalize h false bm m = Ok out -> Inv out.
 Proof.
-  intros H P. apply finalize_parts in H as [m1 [m2 [m3 [Hh [Hi [S ->]]]]]]. inv S.
-  apply strip_all_inv. eapply ignore_local_inv; eauto.
+  intros I H. apply finalize_parts in H as [m1 [m2 [m3 [Hh [Hi [S ->]]]]]]. inv S.
+  apply strip_all_inv. apply (ignore_local_inv m1 m3); [|exact Hi]. apply (hash_all_inv h m m1 I Hh).
 Qed.
 
-(* fifo order, in general: refuted. A resource marked local-config whose name equals the hashed name of a
-   generated ConfigMap survives IgnoreLocal (Intersection keeps every id that occurs among the kept
-   resources) and the output carries the same id twice. *)
-Lemma finalize_fifo_refuted :
-  exists h bm m out, Inv m /\ finalize h false bm m = Ok out /\ ~ Inv out.
-Proof.
-  exists w_hash, [], [w_local; w_gen]. eexists. split; [|split].
-  - apply inv_b_iff. vm_compute. reflexivity.
-  - vm_compute. reflexivity.
-  - intros I. apply inv_b_iff in I. vm_compute in I. discriminate.
-Qed.
-
-(* the same input under the legacy order is an error, not a duplicate *)
-Example finalize_legacy_witness_errs : finalize w_hash true [] [w_local; w_gen] = Err.
-Proof. vm_compute. reflexivity. Qed.
-
-(* and two kept resources clashing after hashing make Factory.FromResourceSlice panic *)
-Example finalize_clash_panics : finalize w_hash false [] [w_plain; w_gen] = Panic.
-Proof. vm_compute. reflexivity. Qed.
+(* regression (C07 finding, fixed): a resource marked local-config whose name equals the hashed name of a generated
+   ConfigMap used to survive IgnoreLocal next to it (two outputs with one id under fifo); the build now fails at
+   the hash step, for every order; so does the clash with a plain resource, which used to panic *)
+Example finalize_collision_regression :
+  Inv [w_local; w_gen] /\ finalize w_hash false [] [w_local; w_gen] = Err /\
+  finalize w_hash true [] [w_local; w_gen] = Err /\ finalize w_hash false [] [w_plain; w_gen] = Err.
+Proof. split; [apply inv_b_iff; vm_compute; reflexivity|]. repeat split; vm_compute; reflexivity. Qed.
 
 Lemma sort_legacy_in m m' : sort_legacy m = Ok m' -> forall r, In r m' -> In r m.
 Proof.
@@ -365,7 +397,6 @@ Definition safe (o : op) (m : rmap) : Prop :=
   match o with
   | OPrefix _ | OSuffix _ => uniform m
   | ONamespace _ => no_empties m
-  | OHash h => hash_lengths_equal h /\ no_plain_clash h m
   | ORawRename _ _ => False            (* unchecked identity rewrite: outside the property's domain *)
   (* domain of the model, not needed by the proof: CopyMergeMetaDataFieldsFrom and ApplySmPatch write the old name
      back with SetName, which turns a missing metadata.name into `name: ""`; the model does not distinguish the
@@ -389,7 +420,7 @@ Proof.
   - eapply prefix_all_inv; eauto.
   - eapply suffix_all_inv; eauto.
   - eapply ns_all_inv; eauto.
-  - destruct S. eapply hash_all_inv_partial; eauto.
+  - eapply hash_all_inv; eauto.
   - eapply sort_legacy_inv; eauto.
   - eapply sm_patch_inv; eauto.
   - destruct S.
@@ -554,7 +585,10 @@ Qed.
 
 Lemma hash_all_nonempty h m m' : no_empties m -> hash_all h m = Ok m' -> no_empties m'.
 Proof.
-  unfold hash_all, no_empties. revert m'. induction m as [|x t IH]; cbn; intros m' NE H r Hr.
+  unfold hash_all. intros NE H.
+  destruct (mapM (hash_one h) m) as [m1| | |] eqn:EM; cbn [bind] in H; try discriminate.
+  destruct (hash_conflict_free m1); inv H.
+  unfold no_empties in *. revert m' EM NE. induction m as [|x t IH]; cbn; intros m' H NE r Hr.
   - inv H. destruct Hr.
   - destruct (hash_one h x) as [y| | |] eqn:E1; cbn in H; try discriminate.
     destruct (mapM (hash_one h) t) as [ys| | |] eqn:E2; cbn in H; try discriminate.
@@ -613,7 +647,12 @@ Proof.
   assert (A0 : append_all out [] = Ok out). { apply (append_all_ok out []). exact Iout. }
   unfold rebuild. rewrite A0. cbn [bind]. unfold finalize.
   assert (Hh2 : hash_all h' out = Ok out).
-  { apply mapM_id. intros r Hr. unfold hash_one. destruct (Eout r Hr) as [_ [_ [_ Nh]]]. rewrite Nh. reflexivity. }
+  { unfold hash_all.
+    rewrite (mapM_id (hash_one h') out) by (intros r Hr; unfold hash_one; destruct (Eout r Hr) as [_ [_ [_ Nh]]]; rewrite Nh; reflexivity).
+    cbn [bind].
+    assert (C : hash_conflict_free out = true).
+    { unfold hash_conflict_free. apply forallb_forall. intros r Hr. destruct (Eout r Hr) as [_ [_ [_ Nh]]]. rewrite Nh. reflexivity. }
+    rewrite C. reflexivity. }
   rewrite Hh2. cbn [bind].
   assert (Hi2 : ignore_local out = Ok out).
   { unfold ignore_local.
@@ -651,19 +690,6 @@ Proof.
   split; [exact I|]. intros m5 H5. exact I.
 Qed.
 
-(* the hash side conditions are satisfiable by a map that actually gets hashed *)
-Example hash_partial_nonvacuous :
-  let m := [w_gen; ex_cm] in
-  Inv m /\ hash_lengths_equal w_hash /\ no_plain_clash w_hash m /\ exists m', hash_all w_hash m = Ok m' /\ m' <> m.
-Proof.
-  cbn zeta. split; [apply inv_b_iff; vm_compute; reflexivity|]. split; [|split].
-  - intros t1 t2 v1 v2 H1 H2. unfold w_hash in H1, H2. cbn [assoc] in H1, H2.
-    destruct (String.eqb _ t1); [|discriminate]. destruct (String.eqb _ t2); [|discriminate].
-    inv H1. inv H2. reflexivity.
-  - intros a b Ha Hb Na Nb. cbn in Ha, Hb. in_cases Ha; in_cases Hb; try (vm_compute in Na; discriminate);
-      try (vm_compute in Nb; discriminate); try (vm_compute; intros X; discriminate).
-  - eexists. split; [vm_compute; reflexivity|]. intros X. discriminate.
-Qed.
 
 (* ---------- layers ---------- *)
 
